@@ -247,9 +247,11 @@ class ParserEngine(ParserCore, CanParse):
 
     def validate_is_not_keyword(self, name: Any) -> None:
         name_str = str(name)
+        keywords = self.keywords
         if self.config.ignorecase:
             name_str = name_str.upper()
-        if name_str in self.keywords:
+            keywords = {k.upper() for k in keywords}
+        if name_str in keywords:
             raise self.newexcept(f'"{name_str}" is a reserved word', KeywordError)
 
     def make_parseinfo(self, name: str, pos: int) -> ParseInfo | None:
